@@ -62,7 +62,7 @@ impl ReceiverModel {
         let n = if quick { 2 } else { 3 };
         for k in 0..n {
             ev.push(Ev::Open(k));
-            for &len in if quick { &[1usize, 16384][..] } else { &[0usize, 1, 7, 16384][..] } {
+            for &len in if quick { &[0usize, 1, 16384][..] } else { &[0usize, 1, 7, 16384][..] } {
                 ev.push(Ev::Data(k, len, None, false));
             }
             ev.push(Ev::Data(k, 7, Some(5), false));
@@ -173,7 +173,7 @@ impl Model for ReceiverModel {
             Ev::Data(k, len, pad, _) => {
                 let s = &w.streams[*k];
                 let flow = *len as i64 + pad.map(|p| p as i64 + 1).unwrap_or(0);
-                s.opened && !s.peer_eos && !s.peer_rst && flow <= pv.v0() && flow <= pv.vs(s.sid)
+                s.opened && !s.peer_eos && !s.peer_rst && (flow == 0 || (flow <= pv.v0() && flow <= pv.vs(s.sid)))
             }
             Ev::PeerRst(k) => w.streams[*k].opened && !w.streams[*k].peer_rst,
             Ev::DataOnNeverOpened => false,
@@ -240,7 +240,7 @@ impl Model for ReceiverModel {
                 let sid = w.streams[k].sid;
                 if let Some(a) = accepted_mut(t, sid) {
                     let b = a.body.take();
-                    guarded(&mut panics, "drop RecvStream", move || drop(b));
+                    safe_drop(&mut panics, "RecvStream", b);
                     if w.streams[k].held > 0 {
                         w.streams[k].orphaned = true;
                     }
@@ -251,11 +251,9 @@ impl Model for ReceiverModel {
                 let sid = w.streams[k].sid;
                 if let Some(a) = accepted_mut(t, sid) {
                     let (b, r, s) = (a.body.take(), a.respond.take(), a.send.take());
-                    guarded(&mut panics, "drop handles", move || {
-                        drop(b);
-                        drop(r);
-                        drop(s);
-                    });
+                    safe_drop(&mut panics, "RecvStream", b);
+                    safe_drop(&mut panics, "SendResponse", r);
+                    safe_drop(&mut panics, "SendStream", s);
                     w.streams[k].held = 0;
                 }
             }
@@ -353,10 +351,8 @@ impl Model for ReceiverModel {
                         // "released everything it was given": octets that can no longer be released through a handle are
                         // given back by letting go of the stream altogether
                         let (r, x) = (a.respond.take(), a.send.take());
-                        let _ = guarded(panics, "drop handles", move || {
-                            drop(r);
-                            drop(x);
-                        });
+                        safe_drop(panics, "SendResponse", r);
+                        safe_drop(panics, "SendStream", x);
                         s.orphaned = false;
                     }
                     if let Some(b) = a.body.as_mut() {
